@@ -60,7 +60,7 @@ THREADS_THOROUGH = [1, 2, 3, 4, 8, 16]
 PINNED_INSTANCE_THEOREMS = {'linalg/push.pyx:push_pagerank#0': ['pushInit_conforms', 'pushInit_deterministic']}
 SLOW_CLASSES = {'KCenters': 5, 'PageRankClassifier': 4}     # class -> divisor of the number of cases
 SEARCH_HISTORIES = 60
-SEARCH_BUDGET_S = 40
+SEARCH_BUDGET_S = 25
 
 _GEN = {}
 
@@ -143,9 +143,10 @@ def generate(ctx):
             'end %s\n' % mod)
     _sweep_stale_generated()
     changed = _write_if_changed(_gen_path(), text)
-    # the kernel-check file is rewritten by every run; until then a placeholder (verdicts of other data must never be
-    # left on disk, nor block a build)
-    _write_if_changed(_gen_path('Ob'), '/- generated by tools/harness/c16.py (placeholder until obligations() of this run) -/\n')
+    # (the kernel check of the verdicts is a per-run file outside the library, see obligations())
+    for stale in (_gen_path('Ob'),):
+        if os.path.exists(stale):
+            os.remove(stale)
     DRIVE_MODULES = [mod]
     _GEN.clear()
     _GEN.update({'loops': loops, 'flags': flags, 'descs': {d['name']: d for d in descs}, 'crs': crs,
@@ -363,8 +364,10 @@ SPEC = {
 
 def _fit_kw(name, rng):
     if name == 'GNNClassifier':
-        return {'n_epochs': rng.choice([2, 4]), 'reinit': True, 'random_state': _seed(rng),
-                'validation': rng.choice([0, 0, 0, 0.3])}
+        kw = {'n_epochs': rng.choice([2, 4]), 'random_state': _seed(rng), 'validation': rng.choice([0, 0, 0, 0.3])}
+        if rng.random() < 0.7:
+            kw['reinit'] = True          # otherwise the default of the signature (False: warm start)
+        return kw
     if name in ('Louvain', 'Leiden', 'KCenters', 'Spectral', 'RandomProjection', 'LouvainEmbedding') and rng.random() < 0.15:
         return {'force_bipartite': True}
     return {}
@@ -435,7 +438,7 @@ def make_job(rng, name, n_hist=None, target_kind=None):
     params = spec['params'](rng)
     n_hist = rng.choice([0, 1, 1, 2, 2, 3]) if n_hist is None else n_hist
     hist = []
-    names = accepted_params(name) if name not in OPAQUE_EXPECTED else []
+    names = accepted_params(name)
     for _ in range(n_hist):
         done = False
         if names and rng.random() < 0.35:
@@ -471,6 +474,13 @@ def current_params(job):
 _TRACED = {}
 
 
+def _rebuild_untraced(cls, state):
+    """unpickling of a traced object: an ordinary object of the original class (tracing does not cross processes)"""
+    obj = cls.__new__(cls)
+    obj.__dict__.update(state)
+    return obj
+
+
 def _traced_class(cls):
     if cls in _TRACED:
         return _TRACED[cls]
@@ -479,10 +489,39 @@ def _traced_class(cls):
         def _c16_start(self):
             object.__setattr__(self, '_c16_reads', [])
             object.__setattr__(self, '_c16_writes', [])
+            # attribute objects that are estimators are traced too (their attributes are reported as `attr.x`)
+            from sknetwork.base import Algorithm
+            nested = {}
+            for k, v in list(object.__getattribute__(self, '__dict__').items()):
+                if isinstance(v, Algorithm) and not k.startswith('_c16_'):
+                    try:
+                        if not hasattr(v, '_c16_start'):
+                            v.__class__ = _traced_class(type(v))
+                        v._c16_start()
+                        nested[k] = v
+                    except TypeError:
+                        pass
+            object.__setattr__(self, '_c16_nested', nested)
             object.__setattr__(self, '_c16_on', True)
 
         def _c16_stop(self):
             object.__setattr__(self, '_c16_on', False)
+            for v in object.__getattribute__(self, '__dict__').get('_c16_nested', {}).values():
+                v._c16_stop()
+
+        def __reduce__(self):
+            d = object.__getattribute__(self, '__dict__')
+            return (_rebuild_untraced, (cls, {k: v for k, v in d.items() if not k.startswith('_c16_')}))
+
+        def _c16_flat(self):
+            """(reads, writes) with the attribute objects' own traces prefixed"""
+            d = object.__getattribute__(self, '__dict__')
+            reads, writes = list(d.get('_c16_reads', [])), list(d.get('_c16_writes', []))
+            for k, v in d.get('_c16_nested', {}).items():
+                r2, w2 = v._c16_flat()
+                reads += [k + '.' + x for x in r2]
+                writes += [k + '.' + x for x in w2]
+            return reads, writes
 
         def __getattribute__(self, k):
             v = object.__getattribute__(self, k)
@@ -510,7 +549,12 @@ def _trace_factory(name, params):
 
 
 def _strip_trace(st):
-    return {k: v for k, v in st.items() if not k.startswith('_c16_')}
+    """remove the tracer's own attributes, at every depth"""
+    if isinstance(st, dict):
+        return {k: _strip_trace(v) for k, v in st.items() if not (isinstance(k, str) and k.startswith('_c16_'))}
+    if isinstance(st, list):
+        return [_strip_trace(v) for v in st]
+    return st
 
 
 # ------------------------------------------------------------------------------------------------
@@ -588,121 +632,6 @@ def _maxdiff(x, y):
     return worst[0] if walk(x, y) else None
 
 
-SVDS_FAMILY = {'SVD', 'GSVD', 'PCA', 'HITS', 'LanczosSVD'}
-ROUNDOFF = 1e-9
-
-
-def uses_svds(job):
-    """Does the job run scipy's svds (directly or through a parameter object)?"""
-    if job.get('cls') in SVDS_FAMILY:
-        return True
-    return any(isinstance(v, dict) and v.get('__est__') in SVDS_FAMILY for v in (job.get('params') or {}).values())
-
-
-SPECTRAL_ATTRS = {'singular_values_', 'singular_vectors_left_', 'singular_vectors_right_', 'embedding_', 'embedding_row_',
-                  'embedding_col_', 'scores_', 'scores_row_', 'scores_col_', '<transform()>', '<predict()>'}
-NN_DERIVED_ATTRS = {'labels_', 'labels_row_', 'labels_col_', 'probs_', 'probs_row_', 'probs_col_', 'links_',
-                    '<predict()>', '<transform()>', '<predict_proba()>'}
-DEGENERATE = 1e-7       # two singular values closer than this (relative) form one cluster; below it a value vanishes
-SUBSPACE = 1e-8         # projectors onto a complete singular subspace must agree within this
-
-
-def _as_array(c):
-    """canonical float array -> numpy array, or None"""
-    if not (isinstance(c, dict) and 'nd' in c and str(c['nd']).startswith('float')):
-        return None
-    try:
-        return np.array([float.fromhex(t) for t in c['v']], dtype=float).reshape(c['shape'])
-    except (TypeError, ValueError):
-        return None
-
-
-def _spectral_object_pattern(sa, sb):
-    """Are the differences between two fitted states of an svds-based object (SVD, GSVD, PCA, HITS, LanczosSVD) exactly
-    what SciPy's unseeded ARPACK restarts can cause?  i.e. only the spectral outputs differ, all of them float arrays of
-    equal shape, the singular values agree, and
-      * without a repeated / vanishing singular value: every difference is of the order of the rounding error;
-      * with one: the projectors onto every *complete* singular subspace agree (only the basis inside a repeated
-        value, and the vectors of the trailing cluster, which the truncation may cut, are free).
-    Returns (explained, maxdiff)."""
-    if not isinstance(sa, dict) or not isinstance(sb, dict):
-        return False, None
-    diff = {k for k in set(sa) | set(sb) if sa.get(k) != sb.get(k)}
-    if not diff or not diff <= (SPECTRAL_ATTRS | {'solver'}):
-        return False, None
-    if not diff & {'singular_vectors_left_', 'singular_vectors_right_', 'solver'}:
-        return False, None      # the vectors ARPACK returned are the same: nothing a restart could explain
-    worst = 0.0
-    for k in diff - {'solver'}:
-        xa, xb = _as_array(sa.get(k)), _as_array(sb.get(k))
-        if xa is None or xb is None or xa.shape != xb.shape:
-            return False, None
-        worst = max(worst, float(np.max(np.abs(xa - xb) / (1 + np.abs(xa)))) if xa.size else 0.0)
-    inner_a, inner_b = sa, sb
-    if 'solver' in diff:
-        na, nb = sa.get('solver'), sb.get('solver')
-        if not (isinstance(na, dict) and isinstance(nb, dict) and na.get('obj') == nb.get('obj') == 'LanczosSVD'):
-            return False, None
-        ok, w = _spectral_object_pattern(na.get('state'), nb.get('state'))
-        if not ok:
-            return False, None
-        worst = max(worst, w or 0.0)
-    if 'singular_values_' not in sa and isinstance(sa.get('solver'), dict):
-        inner_a, inner_b = sa['solver'].get('state') or {}, (sb.get('solver') or {}).get('state') or {}
-    va, vb = _as_array(inner_a.get('singular_values_')), _as_array(inner_b.get('singular_values_'))
-    if va is None or vb is None or va.shape != vb.shape or va.ndim != 1:
-        return False, None
-    if np.max(np.abs(va - vb) / (1 + np.abs(va)), initial=0.0) > ROUNDOFF:
-        return False, None
-    order = np.argsort(-va)
-    clusters, cur = [], [int(order[0])] if len(order) else []
-    for i in order[1:]:
-        if abs(va[cur[-1]] - va[i]) <= DEGENERATE * (1 + abs(va[i])):
-            cur.append(int(i))
-        else:
-            clusters.append(cur)
-            cur = [int(i)]
-    if cur:
-        clusters.append(cur)
-    degenerate = any(len(c) > 1 for c in clusters) or bool(np.any(np.abs(va) < DEGENERATE))
-    if not degenerate:
-        return (0.0 < worst <= ROUNDOFF), worst
-    for name in ('singular_vectors_left_', 'singular_vectors_right_'):
-        ua, ub = _as_array(inner_a.get(name)), _as_array(inner_b.get(name))
-        if ua is None or ub is None or ua.shape != ub.shape or ua.ndim != 2:
-            return False, None
-        for c in clusters[:-1]:                     # complete subspaces (the trailing cluster may be cut)
-            if abs(va[c[0]]) < DEGENERATE:
-                continue
-            pa, pb = ua[:, c] @ ua[:, c].T, ub[:, c] @ ub[:, c].T
-            if np.max(np.abs(pa - pb), initial=0.0) > SUBSPACE:
-                return False, None
-    return True, worst
-
-
-def arpack_restart_pattern(job, a, b):
-    """Is the difference between two results of one job the recorded SciPy limitation (svds does not forward its rng to
-    the restarts of ARPACK) and nothing else?  Any differing attribute outside the spectral outputs (and, for the
-    nearest-neighbour classes, outside what is computed from the embedding object), any structural difference, any
-    difference of a complete singular subspace makes this False: the difference is then an ordinary violation."""
-    if job.get('kind') != 'est' or a.get('outcome') != 'ok' or b.get('outcome') != 'ok':
-        return False
-    sa, sb = a.get('state'), b.get('state')
-    if not isinstance(sa, dict) or not isinstance(sb, dict):
-        return False
-    if job['cls'] in SVDS_FAMILY:
-        return _spectral_object_pattern(sa, sb)[0]
-    if job['cls'] in ('NNClassifier', 'NNLinker'):
-        diff = {k for k in set(sa) | set(sb) if sa.get(k) != sb.get(k)}
-        if 'embedding_method' not in diff or not diff <= (NN_DERIVED_ATTRS | {'embedding_method'}):
-            return False
-        ea, eb = sa.get('embedding_method'), sb.get('embedding_method')
-        if not (isinstance(ea, dict) and isinstance(eb, dict) and ea.get('obj') == eb.get('obj') and ea.get('obj') in SVDS_FAMILY):
-            return False
-        return _spectral_object_pattern(ea.get('state'), eb.get('state'))[0]
-    return False
-
-
 def classify_refit(job, refit, fresh):
     """-> (observed token, sig extras, differing attributes)"""
     d = diff_states(refit, fresh)
@@ -712,15 +641,19 @@ def classify_refit(job, refit, fresh):
     if stale and len(stale) == len(d):
         return 'stale:' + ','.join(stale), {'kind': 'stale', 'attrs': _families(stale)}, d
     extra = {'kind': 'refit-differs'}
-    if arpack_restart_pattern(job, refit, fresh):
-        extra['svds_restart'] = True
     p = current_params(job)
     if 'shuffle_nodes' in p:
         extra['shuffle_nodes'] = bool(p['shuffle_nodes'])
     sets = sorted({k for op in job['history'] if op['op'] == 'set' for k in op['params']} & set(derived_params(job['cls'])))
-    if sets:
+    if sets and job['cls'] == 'GNNClassifier':
+        extra['set_derived_gnn'] = True       # (loss / optimizer / layers in any combination)
+    elif sets:
         extra['set_derived'] = ','.join(sets)
+    if d == ['<outcome>'] and refit['outcome'].startswith('err') and fresh['outcome'] == 'ok':
+        extra['refit_error'] = refit['outcome'][4:].split(':')[0]
     if job['cls'] == 'GNNClassifier':
+        extra['reinit'] = bool(job['target'].get('kw', {}).get('reinit', False))
+        extra['prior_fit'] = any(op['op'] == 'fit' for op in job['history'])
         # a validation mask drawn by any earlier fit is kept by the object
         extra['validation'] = any(bool(op['input'].get('kw', {}).get('validation')) for op in job['history']
                                   if op['op'] == 'fit')
@@ -732,6 +665,13 @@ def classify_refit(job, refit, fresh):
 # ------------------------------------------------------------------------------------------------
 def est_cases(ctx, job, static_names):
     """Run one history job in process: refit vs fresh, fresh vs fresh, trace. -> list of Case"""
+    try:
+        return _est_cases(ctx, job, static_names)
+    except W.EnvironmentFailure as e:
+        raise core.ToolFailure('environment: %s' % e)
+
+
+def _est_cases(ctx, job, static_names):
     name = job['cls']
     refit, robj = W.run_history(job, trace=_trace_factory)
     if refit['state'] is not None:
@@ -780,8 +720,6 @@ def est_cases(ctx, job, static_names):
     d2 = diff_states(again, fresh)
     obs2 = 'equal' if not d2 else 'differs:' + ','.join(d2)
     sig2 = dict(base_sig, kind='rerun-differs') if d2 else dict(base_sig, kind='rerun')
-    if d2 and arpack_restart_pattern(job, again, fresh):
-        sig2['svds_restart'] = True
     if name in static_names:
         cases.append(Case(('rerun', key[1]), sig2, None, obs2, 'c16.spec_history %s %s' % (name, obs2), fresh['outcome'] == 'ok',
                           dict(desc, check='fresh-vs-fresh', differs=d2)))
@@ -796,6 +734,12 @@ def est_cases(ctx, job, static_names):
             cases.append(Case((tag, key[1]), dict(base_sig, kind='trace'), None, 'trace',
                               'c16.spec_trace %s %s %s' % (name, ','.join(reads) or '-', ','.join(writes) or '-'),
                               tag == 'trace', dict(desc, check=tag, reads=reads, writes=writes)))
+            # the same against the flattened description, attribute objects included
+            fr, fw = o._c16_flat()
+            if (len(fr) > len(reads) or len(fw) > len(writes)) and name not in OPAQUE_EXPECTED:
+                cases.append(Case((tag + '-flat', key[1]), dict(base_sig, kind='trace-flat'), None, 'trace',
+                                  'c16.spec_trace_flat %s %s %s' % (name, ','.join(fr) or '-', ','.join(fw) or '-'),
+                                  False, dict(desc, check=tag + '-flat', reads=fr, writes=fw)))
     return cases, fresh, fresh_job
 
 
@@ -1034,15 +978,13 @@ def _compare_batch(jobs, res, inproc, offset=0):
             d = diff_states(r, ref)
             if d:
                 md = _maxdiff(r['state'], ref['state']) if r['outcome'] == ref['outcome'] else None
-                bad.append((job, 'threads-differs', {'threads': [ref_key[0], k[0]], 'attrs': d, 'max_rel_diff': md,
-                                                     'svds_restart': arpack_restart_pattern(job, r, ref)}))
+                bad.append((job, 'threads-differs', {'threads': [ref_key[0], k[0]], 'attrs': d, 'max_rel_diff': md}))
                 break
         if inproc.get(i + offset) is not None:
             d = diff_states(okr[ref_key][i], inproc[i + offset])
             if d:
                 md = _maxdiff(okr[ref_key][i]['state'], inproc[i + offset]['state'])
-                bad.append((job, 'process-differs', {'threads': ref_key[0], 'attrs': d, 'max_rel_diff': md,
-                                                     'svds_restart': arpack_restart_pattern(job, okr[ref_key][i], inproc[i + offset])}))
+                bad.append((job, 'process-differs', {'threads': ref_key[0], 'attrs': d, 'max_rel_diff': md}))
     return bad
 
 
@@ -1070,6 +1012,12 @@ def sweep(ctx, est_jobs, fn_jobs, thread_counts, repeats, inproc):
     if unsafe:
         res2 = run_workers(ctx, unsafe, thread_counts, repeats)
         crashed = {k: v for k, v in res2.items() if isinstance(v, tuple)}
+        for k, v in crashed.items():
+            if v[1] == 'timeout':
+                continue            # a hang is one of the possible outcomes of the recorded race
+            if isinstance(v[1], int) and v[1] > 0:
+                raise core.ToolFailure('c16 worker (threads=%s, racy kernels) exited with %s: %s' % (k[0], v[1], v[2][-300:]))
+        crashed = {k: v for k, v in crashed.items() if not (isinstance(v[1], int) and v[1] > 0)}
         for k, v in crashed.items():
             for j in unsafe:
                 bad.append((j, 'worker-crash', {'threads': k[0], 'rc': v[1], 'stderr': v[2][-200:]}))
@@ -1268,15 +1216,34 @@ def obligations(ctx):
     names.append('crs')
     out.append('theorem crs : crsOK %s.checkRandomState = %s := by decide' % (ge, 'true' if ans[3] == 'holds' else 'false'))
     out.append('end %sOb' % mod)
-    path = _gen_path('Ob')
+    # a per-run file outside the library (no other run can overwrite it), elaborated against the built data module;
+    # `#print axioms` on every theorem proves that it exists in what was elaborated and shows its axioms
+    import re
+    obdir = os.path.join(core.CACHE, 'c16_ob')
+    os.makedirs(obdir, exist_ok=True)
+    path = os.path.join(obdir, 'Ob_%s_%d.lean' % (_tree_tag(), os.getpid()))
     with open(path, 'w') as fh:
-        fh.write('\n'.join(out) + '\n')
-    ok, log = core.lake_build([mod + 'Ob'])
-    hits = core.scan_forbidden([path])
-    failed = 0
-    if not ok or hits:
-        failed = max(1, len(set(m for m in __import__('re').findall(r'Ob\.lean:(\d+)', log))))
-        ctx.broken('kernel-check', {'log': log[-1500:], 'forbidden': hits}, {'obligation': 'kernel-check'})
+        fh.write('\n'.join(out) + '\n' + ''.join('#print axioms %sOb.%s\n' % (mod, t) for t in names))
+    try:
+        rc, so, se = core.lean_file(path)
+    finally:
+        hits = core.scan_forbidden([path])
+        try:
+            os.remove(path)
+        except OSError:
+            pass
+    log = so + se
+    verified = set()
+    for m in re.finditer(r"'([^']+)' depends on axioms: \[([^\]]*)\]", log):
+        if all(a.strip() in core.ALLOWED_AXIOMS for a in m.group(2).replace('\n', ' ').split(',') if a.strip()):
+            verified.add(m.group(1).split('.')[-1])
+    for m in re.finditer(r"'([^']+)' does not depend on any axioms", log):
+        verified.add(m.group(1).split('.')[-1])
+    ok = rc == 0
+    unverified = [t for t in names if t not in verified]
+    failed = len(unverified)
+    if not ok or hits or unverified:
+        ctx.broken('kernel-check', {'log': log[-1500:], 'forbidden': hits, 'unverified': unverified}, {'obligation': 'kernel-check'})
     # obligations = what is required to hold on this tree: the true verdicts (kernel-checked) and every false one that
     # no recorded known finding explains; a known-negative descriptor is covered by its kernel-checked negation
     # (`= false := by decide` in the same file) and by the witness theorems of Properties/C16.lean, and is listed
@@ -1292,8 +1259,8 @@ def obligations(ctx):
     n_stale = sum(len(PINNED_INSTANCE_THEOREMS[n]) for n in stale_instances)
     ctx.extra['generated_obligations'] = true_ones + len(new_false)
     # (the hand-written theorems stay in the audit's count of obligations: they are taken out of `discharged` here)
-    ctx.extra['generated_discharged'] = (max(0, true_ones - failed) if ok else 0) - n_stale
-    ctx.extra['generated_kernel_checked'] = len(names) if ok and not hits else 0
+    ctx.extra['generated_discharged'] = max(0, true_ones - failed) - n_stale
+    ctx.extra['generated_kernel_checked'] = len(verified)
     ctx.extra['generated_new_false'] = new_false
     return verdict_loops, verdict_ests
 
@@ -1350,7 +1317,7 @@ def run(ctx):
             cases += cs
             ctx.count('corpus')
     # generated histories
-    per_class = 16 if quick else 300
+    per_class = 12 if quick else 300
     sweep_jobs, sweep_inproc = [], {}
     hist_in_sweep = set()
     for name in names:
@@ -1417,8 +1384,6 @@ def report_sweep(ctx, bad):
             sig['solver'] = job['kw']['solver']
         if job['kind'] == 'est' and 'solver' in (job.get('params') or {}) and isinstance(job['params']['solver'], str):
             sig['solver'] = job['params']['solver']
-        if detail.get('svds_restart'):
-            sig['svds_restart'] = True
         ctx.spec_fail(sig, {'job': job, 'check': kind}, detail)
 
 
@@ -1468,7 +1433,7 @@ def search(ctx, pending):
             else:
                 found.append({'sig': sig, 'case': {'obligation': obj.get('name'), 'what_no_longer_checks': obj},
                               'detail': 'no-failing-input-found after %d generated histories' % SEARCH_HISTORIES})
-        elif sig.get('obligation') == 'raceFree':
+        elif sig.get('obligation') in ('raceFree', 'float-reduction'):
             loop = sig['loop']
             fname = loop.split(':')[0]
             jobs = [j for j in kernel_jobs(rng, big=True) if j.get('loop') == fname]
